@@ -194,6 +194,12 @@ func runC14(o *Out) {
 		}
 		cfgs = append(cfgs, mk(args...))
 	}
+	// repeated options: the order of the values is part of what is asked for
+	cfgs = append(cfgs, mk("query", "-n", "product", "-n", "gene"), mk("query", "-n", "locus_tag", "-n", "gene", "-n", "product"),
+		mk("query", "-n", "product", "-n", "locus_tag", "-n", "gene"),
+		mk("define", "gene", "complement(3..9)", "-q", "gene=y", "-q", "note=x"),
+		mk("search", "@tttt", "-k", "primer", "-q", "note=p", "-q", "label=q"), mk("search", "@tttt", "-k", "primer", "-q", "label=q", "-q", "note=p"),
+		mk("extract", "gene", "10..40"))
 	cfgs = append(cfgs, mk("query", "-n", "gene"), mk("query", "-n", "gene", "-n", "product"), mk("query", "-d", ","), mk("query", "-t", ";"),
 		mk("summary"), mk("summary", "-F"), mk("summary", "-Q"), mk("summary", "-F", "-Q"))
 
@@ -292,6 +298,76 @@ func runC14(o *Out) {
 	}
 	// the partition of invocations into cache entries, as the model predicts it
 	o.Case("history", true, "cache_hist ("+strings.Join(histSx, " ")+")", "ok ("+strings.Join(counts, " ")+")")
+	// secondary inputs edited in place: same path, same command line, new
+	// contents; and the primary input given as a file path or on stdin
+	{
+		s3 := newSandbox()
+		mutable := filepath.Join(aux, "mutable")
+		type sec struct {
+			name     string
+			args     []string
+			a, b     []byte
+			stdin    []byte
+			stdinAlt []byte
+		}
+		tabA := []byte("     misc_feature    1..10\n                     /note=\"one\"\n")
+		tabB := []byte("     misc_feature    5..20\n                     /note=\"two\"\n")
+		secs := []sec{
+			{"insert-guest-file", []string{"insert", "^", mutable}, []byte(">g\naaaaaaaa\n"), []byte(">g\ncccccccc\n"), gb, nil},
+			{"insert-guest-file-embed", []string{"insert", "^", mutable, "-e"}, []byte(">g\naaaaaaaa\n"), []byte(">g\ncccccccc\n"), gb, nil},
+			{"infix-host-file", []string{"infix", "^", mutable}, gb, append(append([]byte(nil), gb...), gb...), []byte(">g\nacgt\n"), nil},
+			{"annotate-table-file", []string{"annotate", mutable}, tabA, tabB, gb, nil},
+			{"search-query-file", []string{"search", mutable}, []byte(">q\nacgt\n"), []byte(">q\ntttt\n"), gb, nil},
+		}
+		var hs, cs []string
+		kid := 0
+		for _, sc := range secs {
+			refs := map[string]runResult{}
+			for _, v := range []struct {
+				tag  string
+				data []byte
+			}{{"A", sc.a}, {"B", sc.b}} {
+				ioutil.WriteFile(mutable, v.data, 0644)
+				refs[v.tag] = s3.run(sc.args, sc.stdin, false, true)
+			}
+			for i, tag := range []string{"A", "A", "B", "B", "A"} {
+				data := sc.a
+				if tag == "B" {
+					data = sc.b
+				}
+				ioutil.WriteFile(mutable, data, 0644)
+				got := s3.run(sc.args, sc.stdin, false, false)
+				if !sameResult(got, refs[tag]) {
+					o.Violate("secondary-input-not-keyed", fmt.Sprintf("%s step %d (%s)", sc.name, i, tag),
+						fmt.Sprintf("gts %s with contents %s after a run with other contents: exit %d vs %d, stdout sha1 %x vs %x",
+							strings.Join(sc.args, " "), tag, got.code, refs[tag].code, sha1.Sum(got.stdout), sha1.Sum(refs[tag].stdout)))
+				}
+				id := kid
+				if tag == "B" {
+					id = kid + 1
+				}
+				hs = append(hs, fmt.Sprintf("(0 %d %s 0)", id, b2s(refs[tag].code == 0)))
+				cs = append(cs, itoa(s3.entries()))
+			}
+			kid += 2
+		}
+		o.Case("secondary-history", true, "cache_hist ("+strings.Join(hs, " ")+")", "ok ("+strings.Join(cs, " ")+")")
+		// different primary inputs on stdin under one command line
+		var hs2, cs2 []string
+		s4 := newSandbox()
+		for i, in := range []string{"part.gb", "part.fa", "part.gb", "two.gb", "part.fa"} {
+			want := s4.run([]string{"reverse"}, inputs[in], false, true)
+			got := s4.run([]string{"reverse"}, inputs[in], false, false)
+			if !sameResult(got, want) {
+				o.Violate("primary-input-not-keyed", fmt.Sprintf("gts reverse < %s (step %d)", in, i), "")
+			}
+			hs2 = append(hs2, fmt.Sprintf("(%d 0 %s 0)", inID[in], b2s(want.code == 0)))
+			cs2 = append(cs2, itoa(s4.entries()))
+		}
+		o.Case("stdin-history", true, "cache_hist ("+strings.Join(hs2, " ")+")", "ok ("+strings.Join(cs2, " ")+")")
+		s3.close()
+		s4.close()
+	}
 	// small independent histories of length 1..4 on fresh caches
 	small := []cfg{mk("clear"), mk("extract", "CDS"), mk("extract", "CDS", "-v"), mk("delete", "10..20"), mk("delete", "10..20", "-e")}
 	n := 0
